@@ -103,6 +103,7 @@ def true_scaling(c):
 
 
 PROBE_LOG = []
+PROBE_SKIPS = []
 
 
 def install_contraction_probe():
@@ -113,11 +114,19 @@ def install_contraction_probe():
         return
     orig = Contraction.__init__
 
-    def probed(self, indices, names, term_target_indices, external_indices=tuple()):
-        orig(self, indices, names, term_target_indices, external_indices)
-        if len(PROBE_LOG) < 4000:
-            PROBE_LOG.append((tuple(tuple(t) for t in indices), tuple(term_target_indices), tuple(external_indices),
-                              tuple(self.contracted), tuple(self.target), self.scaling))
+    import inspect
+    sig = inspect.signature(orig)
+
+    def probed(self, *a, **kw):
+        orig(self, *a, **kw)
+        if len(PROBE_LOG) >= 4000:
+            return
+        try:        # observation only: a refactored signature must not break the code under test
+            args = sig.bind(self, *a, **kw).arguments
+            PROBE_LOG.append((tuple(tuple(t) for t in args["indices"]), tuple(args["term_target_indices"]),
+                              tuple(args.get("external_indices", ())), tuple(self.contracted), tuple(self.target), self.scaling))
+        except Exception:
+            PROBE_SKIPS.append(1)
     Contraction.__init__ = probed
     Contraction._verif_probed = True
 
@@ -128,6 +137,9 @@ def check_probe_log(ctx, label, rep):
     rng = ctx.rng
     log = list(PROBE_LOG)
     del PROBE_LOG[:]
+    if PROBE_SKIPS:
+        ctx.count("contraction_probe_skipped(signature not recognised)", len(PROBE_SKIPS))
+        del PROBE_SKIPS[:]
     if len(log) > 12:
         log = rng.sample(log, 12)
     for indices, tt, ext, contracted, target, scaling in log:
